@@ -238,3 +238,25 @@ def top_level_boundaries(items):
         elif it[2] == "LINE_END" and not in_block and not in_model:
             out.append(i)
     return out
+
+
+def decay_line_boundaries(items):
+    """Indices i of LINE_END gaps *inside* Decay blocks: after the `Decay M` line and after the terminating semicolon(s) of a decay line."""
+    out = []
+    in_block = False
+    after = None
+    for i, it in enumerate(items):
+        if it[0] == "T":
+            if it[2] == "word" and it[1] == "Decay" and (i < 2 or items[i - 1][2] in ("LINE_END", "BOF")):
+                in_block, after = True, "decay"
+            elif it[1] == "Enddecay":
+                in_block = False
+            elif it[2] == "semi":
+                after = "semi"
+            elif after == "decay":
+                after = "mother"
+            else:
+                after = None
+        elif it[2] == "LINE_END" and in_block and after in ("semi", "mother"):
+            out.append(i)
+    return out
